@@ -66,9 +66,27 @@ func (c14) RunCase(c *core.Ctx) {
 		stray := c.R.Bool()
 		var base *run.Outcome
 		var baseIssues []string
-		for _, f := range fronts {
-			b := spec.Build(n, &spec.Hooks{FieldOrder: permutedOrder(c.R)})
+		// half of the records use ONE schema object for all front ends (a package-level schema serving requests, config and tests)
+		var sharedB *spec.Built
+		if c.R.Bool() {
+			sharedB = spec.Build(n, &spec.Hooks{FieldOrder: permutedOrder(c.R)})
+		}
+		order := append([]string{}, fronts...)
+		if sharedB != nil && c.R.Bool() {
+			// the Go map rendering is not always the first use of the schema object
+			order = append(order[1:], order[0])
+		}
+		results := map[string]*run.Outcome{}
+		for _, f := range order {
+			b := sharedB
+			if b == nil {
+				b = spec.Build(n, &spec.Hooks{FieldOrder: permutedOrder(c.R)})
+			}
 			o, _, _ := frontExec(b, n, rec, f, prefill, stray)
+			results[f] = o
+		}
+		for _, f := range fronts {
+			o := results[f]
 			c.Eval(1)
 			c.Distinct("front_ends", f)
 			det := func(extra map[string]any) map[string]any {
